@@ -657,6 +657,14 @@ func (c *client) loopWrite() {
 		switch c.filter.Do(req) {
 		case Continue:
 		case Stop:
+			// The previous requests may have been left in the buffer on the
+			// assumption that this one would be flushed together with them.
+			if len(c.pendingReqs) == 0 {
+				if err = c.enc.Flush(); err != nil {
+					c.logger.Warnf("loop write exit: %v", err)
+					return
+				}
+			}
 			continue
 		}
 
